@@ -177,7 +177,7 @@ impl<'f> fixed_point::FixedPointAnalysis<'f, IntermediateOffset> for StackPointe
         state: Option<IntermediateOffset>,
     ) -> Result<IntermediateOffset, Error> {
         // If we are the function entry, we set the value of the stack pointer
-        // to 0.
+        // to 0, in the width of this architecture's stack pointer.
         let stack_pointer_offset = match state {
             Some(state) => state,
             None => {
@@ -186,7 +186,7 @@ impl<'f> fixed_point::FixedPointAnalysis<'f, IntermediateOffset> for StackPointe
                     .ok_or("Unable to get function entry")??;
 
                 if location == function_entry {
-                    IntermediateOffset::Value(il::const_(0, 32))
+                    IntermediateOffset::Value(il::const_(0, self.stack_pointer.bits()))
                 } else {
                     IntermediateOffset::Top
                 }
